@@ -495,14 +495,26 @@ def _run(ctx, oracle_only=False, scale=1):
 
 
 def correspondence(ctx):
-    return _run(ctx)
+    r = _run(ctx)
+    from props import c04_wire
+
+    r.merge(c04_wire.run(ctx))
+    return r
 
 
 def search(ctx, prior):
-    return _run(ctx, oracle_only=True, scale=2)
+    r = _run(ctx, oracle_only=True, scale=2)
+    from props import c04_wire
+
+    r.merge(c04_wire.run(ctx, compare=False))
+    return r
 
 
 def replay(ctx, doc):
+    if "wire_commands" in doc["failure"]["input"]:
+        from props import c04_wire
+
+        return c04_wire.replay(doc["failure"]["input"])
     j = dict(doc["failure"]["input"])
     j["table"] = [tuple(e) for e in j["table"]]
     got = impl_eval([j])[0]
